@@ -376,12 +376,19 @@ def explore(ctx, drv, model, cases, rts, search=False):
     if not search:
         ctx.cov["samples"] += [{"case": c, "model": m, "impl": i} for c, m, i in list(zip(allc, mod, impl))[:8]]
     ndis = 0
+    nout = 0
     for c, m, i in zip(allc, mod, impl):
         canon, _, oracle = i.partition("\t#ORACLE:")
         if oracle:
             ctx.violation(classify(c, oracle), "case `%s`: %s (library: %s)" % (c[:300], oracle.strip()[:200], canon[:120]),
                           {"family": "C21", "case": c, "impl": canon, "model": m})
-        elif "CRASH" in canon or "HANG" in canon or "UNCAUGHT" in canon or canon.startswith("EXN") or "NOOUTPUT" in canon:
+        elif "NOOUTPUT" in canon:
+            # the driver process itself died or its shard ran into the run_lines timeout: not a verdict on this case
+            nout += 1
+            if nout <= 1:
+                ctx.broken.append({"kind": "correspondence", "name": "C21 driver output missing",
+                                   "detail": "no output for case `%s` (%s): driver shard died or timed out" % (c[:200], canon)})
+        elif "CRASH" in canon or "HANG" in canon or "UNCAUGHT" in canon or canon.startswith("EXN"):
             ctx.violation("C21/%s-%s" % (c.split()[1], "hang" if "HANG" in canon else "crash"),
                           "case `%s` ends with %s on the library (model: %s)" % (c[:300], canon[-40:], (m or "")[:80]),
                           {"family": "C21", "case": c, "impl": canon, "model": m})
